@@ -75,6 +75,25 @@ def run(ctx):
                        "the code generator evaluates %s.%s (%s) but the tracker never visits it: variables read there "
                        "are not reported" % (T, fld, evs[0].site), evs[0].site)
         ctx.floor("C18.W1 evaluated (node type, field) pairs" + tag, n1, 40 if cname != "MIN" else 30)
+        # W1b: the same per *position*.  An assignment target is walked by its own pair of functions (the sinks of
+        # kind 'assign': compile_assignment / track_assign).  What the code generator evaluates while it compiles a
+        # target (`{% set ns.attr = v %}` looks `ns` up) must be visited by the tracker's target walker: a visit of the
+        # same node type in expression position does not cover it.
+        c_assign = {k for k, v in csinks.items() if v[0] == "assign"}
+        m_assign = {k for k, v in msinks.items() if v[0] == "assign"}
+        n1b = 0
+        for e in ce:
+            if e.kind != "eval" or not e.field or e.fn.path not in c_assign:
+                continue
+            n1b += 1
+            T = e.T.split("::")[-1]
+            fld = ".".join(e.field)
+            have = [m for m in me if m.kind == "eval" and m.fn.path in m_assign and m.T == e.T and ".".join(m.field) == fld]
+            ctx.ob("C18.W1.target-operand-is-visited", "%s%s.%s" % (tag, T, fld), bool(have),
+                   "while compiling an assignment target the code generator evaluates %s.%s (%s), but the tracker's "
+                   "target walker does not visit it: `{%% set ns.attr = v %%}` looks `ns` up in the context without it being "
+                   "reported" % (T, fld, e.site), e.site)
+        ctx.floor("C18.W1 evaluations inside assignment targets" + tag, n1b, 1)
 
         # ---- W2
         n2 = 0
@@ -159,6 +178,50 @@ def run(ctx):
                    "the tracker treats `%s` as assigned, but the interpreter never binds a variable of that name (it is "
                    "special in call position only): `{{ %s }}` is a context lookup that is not reported" % (nm, nm),
                    f.where(c.bb))
+        # ... and bound on *every* invocation of the construct, not only on some: where the interpreter stores the name
+        # under a condition on an Option (`if let Some(caller) = caller { ctx.store("caller", ..) }`), every value that
+        # can arrive there (traced across functions) is `Some(..)`, or `None` only where the flag saying that the body
+        # does not mention the name is false.  Otherwise a body that mentions the name looks it up in the context.
+        STORE = "minijinja::vm::context::Context::store"
+        names = {nm for _f, _c, nm in const_assigns}
+        nst = 0
+        for g in prog.fns.values():
+            for c in g.calls_to(STORE):
+                if len(c.args) < 4:
+                    continue
+                nm = cstr(g, c.args[2])
+                if nm not in names:
+                    continue
+                nst += 1
+                vo = flow.origins(g, c.args[3])
+                cond = [o for o in vo if o.kind == "arg" and o.proj[-2:] == ("as Some", "0")]
+                if not cond:
+                    continue        # stored unconditionally (or from a value computed here)
+                bad = []
+                nleaf = 0
+                for o in cond:
+                    for (lf, lo) in flow.xorigins(prog, g, flow._fake_operand(o.arg, o.proj[:-2])):
+                        nleaf += 1
+                        if lo.kind == "agg" and lo.rv.get("variant") == "Some":
+                            continue
+                        if lo.kind == "agg" and lo.rv.get("variant") == "None":
+                            gf = flow.guard_facts(prog, lf, lo.bb)
+                            if any(x[0] == "local" and x[2] is False and isinstance(x[1], dict) and any(
+                                    isinstance(e, dict) and e.get("ty") == "bool" and "n" in e for e in x[1].get("p", []))
+                                   for x in gf):
+                                continue
+                            bad.append("%s: None without a flag saying the body does not mention `%s`" % (lf.path.split("::")[-1], nm))
+                            continue
+                        bad.append("%s: %s may be None" % (lf.path.split("::")[-1],
+                                                         lo.call.name if lo.kind == "call" else repr(lo)))
+                ctx.ob("C18.W5.pre-assigned-name-is-bound-on-every-invocation", "%s%s|%s" % (tag, g.path.split("::")[-1], nm),
+                       nleaf > 0 and not bad,
+                       "the tracker treats `%s` as assigned inside the construct, but the interpreter binds it only when a "
+                       "value was supplied (%s): a body that mentions `%s` and is invoked without one looks `%s` up in the "
+                       "render context, which undeclared_variables() does not report" % (nm, "; ".join(bad) or "no producer found", nm, nm),
+                       g.where(c.bb))
+        if prog.has_fn("minijinja::vm::Executor::eval_macro"):
+            ctx.floor("C18.W5 interpreter stores of pre-assigned names" + tag, nst, 1)
         # implicit names live in the scope of their construct: the pre-assignment happens after the tracker opened a
         # scope for it (in the same function, or in every tracker function that calls it), so the name is forgotten
         # when the construct ends
